@@ -46,7 +46,8 @@ ASSUMPTIONS = [
 EXHAUSTIVE = {"quick": False, "thorough": True}
 
 IRR = 9  # index of the irrelevant event "X"
-OPS = ["match", "await", "when", "whenmix"]
+FAIL = 100  # event FAIL+i makes flow f<i> fail (ops awaitf / whenf only)
+OPS = ["match", "await", "when", "whenmix", "awaitf", "whenf"]
 
 
 def translate():
@@ -172,18 +173,22 @@ def renderable(g, top=True):
 def kinds_for(op, rng=None, g=None):
     if op == "match":
         return ["ev"] * 10
-    if op in ("await", "when"):
+    if op in ("await", "when", "awaitf", "whenf"):
         return ["flow"] * 10
     ks = [rng.choice(["ev", "flow"]) for _ in range(10)]
     return ks
 
 
 def program(op, g, kinds, minimal=False):
-    subs = "".join(f"flow f{i}\n  match E{i}()\n\n" for i in sorted(set(atoms_of(g))) if kinds[i] == "flow")
+    if op in ("awaitf", "whenf"):
+        # sub-flows that finish on E<i> and fail on F<i>
+        subs = "".join(f"flow f{i}\n  when E{i}()\n    return\n  or when F{i}()\n    abort\n\n" for i in sorted(set(atoms_of(g))))
+    else:
+        subs = "".join(f"flow f{i}\n  match E{i}()\n\n" for i in sorted(set(atoms_of(g))) if kinds[i] == "flow")
     grp = render(g, kinds, minimal)
     if op == "match":
         body = f"  match {grp}\n  send Hit()\n"
-    elif op == "await":
+    elif op in ("await", "awaitf"):
         body = f"  await {grp}\n  send Hit()\n"
     else:
         body = f"  when {grp}\n    send Hit()\n"
@@ -192,9 +197,9 @@ def program(op, g, kinds, minimal=False):
 
 # ----------------------------------------------------------------------------- sequences
 
-def g_seqs(rng, g, n, maxlen=6):
+def g_seqs(rng, g, n, maxlen=6, fails=False):
     al = sorted(set(atoms_of(g)))
-    full = al + [IRR]
+    full = al + [IRR] + ([FAIL + a for a in al] if fails else [])
     seqs = []
     for _ in range(n):
         r = rng.random()
@@ -212,6 +217,8 @@ def g_seqs(rng, g, n, maxlen=6):
             for a in p:
                 if s and rng.random() < 0.35:
                     s.append(rng.choice(s + [IRR]))
+                if fails and rng.random() < 0.2:
+                    s.append(FAIL + rng.choice(al))
                 s.append(a)
             seqs.append(s[:maxlen])
     out, seen = [], set()
@@ -248,7 +255,7 @@ def gen_cases(rng, tier):
         n_atoms = rng.randint(1, 5)
         g = g_formula(rng, n_atoms, rng.randint(2, 8), rng.randint(1, 4))
         kinds = kinds_for(op, rng, g)
-        cases.append({"kind": "e2e", "op": op, "g": g, "kinds": kinds[:5], "minimal": rng.random() < 0.3, "seqs": g_seqs(rng, g, n_seq)})
+        cases.append({"kind": "e2e", "op": op, "g": g, "kinds": kinds[:5], "minimal": rng.random() < 0.3, "seqs": g_seqs(rng, g, n_seq, fails=op.endswith("f"))})
     if not quick:
         # exhaustive small scope: all trees with <= 3 leaves over <= 3 atoms x all sequences of length <= 4
         for leaves in (2, 3):
@@ -261,6 +268,11 @@ def gen_cases(rng, tier):
             g = g_formula(rng, 5, rng.randint(4, 8), rng.randint(2, 4))
             al = sorted(set(atoms_of(g))) + [IRR]
             cases.append({"kind": "e2e", "op": op, "g": g, "kinds": kinds_for(op, rng, g)[:5], "minimal": False, "seqs": [list(p) for p in itertools.permutations(al)]})
+        # failing sub-flows: all trees with <= 2 leaves, all sequences of length <= 4 over finish/fail events + irrelevant
+        for op in ("awaitf", "whenf"):
+            for g in all_trees(2, 2):
+                al = sorted(set(atoms_of(g)))
+                cases.append({"kind": "e2e", "op": op, "g": g, "kinds": ["flow"] * 5, "minimal": False, "seqs": list(all_seqs(al + [FAIL + a for a in al] + [IRR], 4))})
         # all trees with <= 3 leaves for await / when (flows), all sequences of length <= 3
         for op in ("await", "when"):
             for leaves in (2, 3):
@@ -330,7 +342,7 @@ def parse_group(op, g, kinds, minimal):
     A = _M["ast"]
     grp = None
     for el in main.elements:
-        if isinstance(el, A.SpecOp) and el.op == op and not (isinstance(el.spec, A.Spec) and el.spec.name == "StartFlow"):
+        if isinstance(el, A.SpecOp) and el.op == ("await" if op.startswith("await") else op) and not (isinstance(el.spec, A.Spec) and el.spec.name == "StartFlow"):
             grp = el.spec
             break
         if isinstance(el, A.When):
@@ -480,7 +492,7 @@ def run_e2e(case):
         try:
             with _quiet():
                 for a in seq:
-                    sm.run_to_completion(s, {"type": "X" if a == IRR else f"E{a}"})
+                    sm.run_to_completion(s, {"type": ev_name(a)})
                     hits.append(sum(1 for e in s.outgoing_events if e.get("type") == "Hit"))
                     extra.update(e.get("type") for e in s.outgoing_events if e.get("type") != "Hit")
         except Exception as e:  # noqa
@@ -488,6 +500,10 @@ def run_e2e(case):
         runs.append({"hits": hits, "extra": sorted(extra), "exc": exc, "main": _main_status(s)})
     obs["runs"] = runs
     return obs
+
+
+def ev_name(a):
+    return "X" if a == IRR else (f"F{a - FAIL}" if a >= FAIL else f"E{a}")
 
 
 def _main_status(st):
@@ -511,7 +527,25 @@ def model_requests(case, obs):
         return [{"m": "C07.normalize", "g": obs["g_seen"]}]
     if kind == "expand":
         return [{"m": "C07.expand", "g": obs["g_seen"], "prims": obs.get("prims", [])}]
-    return [{"m": "C07.markers", "g": obs["g_seen"], "seqs": case["seqs"]}]
+    return [{"m": "C07.markers", "g": obs["g_seen"], "seqs": [finish_view(s) for s in case["seqs"]]}]
+
+
+def finish_view(seq):
+    """the sequence as the formula over Finished events sees it: a failure event, and a finish event of a flow that
+    has failed before, are irrelevant (that flow will never finish)"""
+    out, dead, fin = [], set(), set()
+    for a in seq:
+        if a >= FAIL:
+            if a - FAIL not in fin:
+                dead.add(a - FAIL)
+            out.append(IRR)
+        elif a in dead:
+            out.append(IRR)
+        else:
+            if a != IRR:
+                fin.add(a)
+            out.append(a)
+    return out
 
 
 def compare(case, obs, mouts):
@@ -541,15 +575,23 @@ def compare(case, obs, mouts):
         exp = [1 if b else 0 for b in mk]
         if run["exc"] or run["hits"] != exp:
             return f"sequence {seq}: implementation hits {run['hits']} exc={run['exc']}, model markers {exp}"
+        if not case["op"].endswith("f") and run["main"] != "STARTED":
+            # model: after completion no head of the group is left, before completion the heads just wait
+            return f"sequence {seq}: main flow ended in status {run['main']} (model: it keeps waiting on `match Never()`)"
     return None
 
 
 # ----------------------------------------------------------------------------- oracle (formula, written from the statement)
 
 def expected_hits(g, seq):
-    out, s, done = [], set(), False
+    """formula over the set of received events (match) / of flows that have Finished (await, when)"""
+    out, s, done, failed = [], set(), False, set()
     for a in seq:
-        s.add(a)
+        if a >= FAIL:
+            if a - FAIL not in s:
+                failed.add(a - FAIL)  # the flow fails before finishing: it will never finish
+        elif a not in failed:
+            s.add(a)
         if not done and ev(g, s):
             out.append(1)
             done = True
@@ -629,7 +671,7 @@ def occurrence_clauses(g):
 
 
 def signature(case, obs, msg):
-    if case["kind"] == "e2e" and case["op"] in ("when", "whenmix"):
+    if case["kind"] == "e2e" and case["op"] in ("when", "whenmix", "whenf"):
         kinds = case["kinds"] + ["ev"] * 10
         cl = occurrence_clauses(case["g"])
         count = {}
@@ -672,6 +714,9 @@ def tags(case, obs):
                 t.append("has-repeats")
             if any(IRR in s for s in case["seqs"]):
                 t.append("has-irrelevant")
+            if any(a >= FAIL for s in case["seqs"] for a in s):
+                t.append("has-failing-flow")
+            t.extend("main:" + m for m in sorted({r["main"] for r in obs["runs"]}))
     for k in ("build_exc", "exc"):
         if k in obs:
             t.append(k)
